@@ -149,6 +149,9 @@ def request_part(job, r):
         login = rng.choice(logins)
         w = World((exe, env, work), rng, transport, version, alg, key, login)
         w.next_reply = lambda req: b''
+        hdrcb = rng.random() < 0.4
+        if hdrcb:
+            w.cmd('hdrcb 0 on')      # a registered request header callback fills in instance and message id: they are part of what the MAC covers
         for j in range(3):
             h = gen.rnd_imprint(rng, rng.choice([1, 4, 5]))
             L = rng.choice([0, 0, 3, 255])
@@ -171,6 +174,10 @@ def request_part(job, r):
                     bad.append('login')
                 if req.get('hash') != h:
                     bad.append('hash')
+                if hdrcb:
+                    r.count('requests_with_header_callback')
+                    if req.get('instance') is None or req.get('message') is None:
+                        bad.append('header-callback-values-missing')
             if bad:
                 r.viol('request:%s:v%d:%s' % (transport, version, '+'.join(b.split('(')[0] for b in bad)), 'request PDU at the transport: %s; key length %d alg %d' % (bad, klen, alg), 'key=%s login=%s request=%s' % (key.hex(), login, raw.hex()))
             else:
@@ -183,6 +190,9 @@ def request_part(job, r):
         alg = rng.choice([1, 2, 4, 5])
         w = World((exe, env, work), rng, rng.choice(['http', 'tcp']), version, alg, key, 'anon', kind='ext')
         w.next_reply = lambda req: b''
+        if rng.random() < 0.5:
+            w.cmd('hdrcb 0 on')
+            r.count('requests_with_header_callback')
         src = gen.gen_signature(rng, with_cal=False, rfc=False)
         w.cmd('sigparse 0 0 empty ' + src.enc().hex())
         w.last_raw = None
